@@ -217,3 +217,4 @@ def run(ctx) -> None:
     operators(ctx)
     wrap_label_order(ctx)
     primitives(ctx)
+    shared.argname_scope(ctx, ('forml.flow._suite', 'forml.flow._graph', 'forml.pipeline', 'forml.evaluation._stage'), floor=2)
